@@ -213,6 +213,23 @@ class SymWorld(S.World):
                     return True
         return False
 
+    def inv_congruence(self, X, Y, lemma="the inverse is a function of the matrix"):
+        """ghost step: if the kernel proves X == Y then Inv[Y] := Inv[X] and LogDet[Y] := LogDet[X]"""
+        ok = self.equal("hint/inverse-congruence", X, Y)
+        if not ok:
+            return False
+        iX, lX = MX.intern_matrix(self, X.fresh_copy(), True)
+        iY, lY = MX.intern_matrix(self, Y.fresh_copy(), True)
+        for aX, aY, table in ((iX, iY, self.inv_rewrites), (lX, lY, self.ld_rules)):
+            if aY.expr[0] == "atom" and (aX.expr[0] != "atom" or aX.expr[1] != aY.expr[1]):
+                xf = aX.fresh_copy()
+                m = {}
+                for a_, b_ in zip(xf.axes, aY.axes):
+                    m.update(zip(a_.comps, b_.comps))
+                table.setdefault(aY.expr[1], []).append((aY.expr[2], K.subst(xf.expr, m)))
+        self.hints_used.append(lemma)
+        return True
+
     def ld_congruence(self, X, Y, lemma="det is a function of the matrix"):
         """ghost step: if the kernel proves X == Y then LogDet[X] := LogDet[Y] (also for LD atoms already created)"""
         ok = self.equal(f"hint/logdet-congruence", X, Y)
@@ -572,6 +589,9 @@ class NumWorld:
 
     def is_contract_inverse(self, X, Y):
         return False
+
+    def inv_congruence(self, X, Y, lemma=""):
+        return self.equal("hint/inverse-congruence", X, Y)
 
     def ld_congruence(self, X, Y, lemma=""):
         return self.equal("hint/logdet-congruence", X, Y)
